@@ -70,7 +70,8 @@ def in_threads(progs, shared, profiling, concurrent, bridge=False):
             bt.start()
             started.wait(10)
         barrier = threading.Barrier(len(progs))
-        ths = [threading.Thread(target=run_one, args=(p, shared, out, i, barrier, profiling), daemon=True) for i, p in enumerate(progs)]
+        # all workers carry the SAME thread name: a thread's identity is the thread, not what it is called
+        ths = [threading.Thread(target=run_one, args=(p, shared, out, i, barrier, profiling), daemon=True, name="worker") for i, p in enumerate(progs)]
         for t in ths:
             t.start()
         deadline = time.time() + 30
